@@ -389,6 +389,13 @@ def run(chk, replay=None):
                     chk.violation('%s:raised:%s' % (modname, 'zero-rate-bins' if 0 in wt else 'positive'),
                                   {'wt': wt, 'unit': unit, 'n_active': n_active, 'err': repr(res)})
                 for (name, tgt, weights, draws, out) in cap.calls:
+                    # the prescribed number is the observed number of active cells - known here, not taken from the sampler's argument
+                    if int(tgt) != n_active or int(numpy.asarray(out).sum()) != n_active:
+                        chk.violation('%s:simulated catalog does not hold the observed number of active cells:%s' % (
+                            modname, 'first-cell-active' if 0 in act else 'first-cell-empty'),
+                            {'wt': wt, 'unit': unit, 'observed_active_cells': sorted(act), 'sampler_asked_for': int(tgt),
+                             'cells_active_in_simulation': int(numpy.asarray(out).sum())})
+                        break
                     dr = [project_draw(cdf, u, n, True) for u in draws]
                     add_trace(base_trace(kind='binary', target=tgt, n=n, zero=[1 if x == 0 else 0 for x in wt],
                                          draws=dr, result=[int(x) for x in out]),
